@@ -32,6 +32,8 @@ def cases(tier, seed):
         yield dict(kind="stacking", k=k)
     for order in ("int-first", "float-first"):
         yield dict(kind="stacking-mixed", order=order)
+    for supervised in (False, True):
+        yield dict(kind="fit-transform-kwargs", supervised=supervised)
 
 
 def data(kind):
@@ -68,6 +70,21 @@ def check(c):
                   DecisionTreeClassifier(random_state=0).fit(X, y).predict_proba(X)][:c["k"]]
         if not numpy.allclose(st.transform(X), numpy.hstack(direct), rtol=0, atol=1e-12):
             return dict(**{"class": "stacking-concat"}, what="transform is not the column concatenation of the members' outputs")
+        return None
+    if c["kind"] == "fit-transform-kwargs":
+        # fit_transform (what a Pipeline calls on a step) trains the wrapped model like a direct fit: targets and fit arguments included
+        from sklearn.preprocessing import StandardScaler
+        from sklearn.linear_model import LinearRegression
+        X, y, _, _ = data("reg")
+        w = numpy.linspace(0.1, 3.0, len(X))
+        if c["supervised"]:
+            got = SkBaseTransformLearner(LinearRegression(), "predict").fit_transform(X, y, sample_weight=w)
+            exp = LinearRegression().fit(X, y, sample_weight=w).predict(X).reshape(len(X), -1)
+        else:
+            got = SkBaseTransformLearner(StandardScaler(), "transform").fit_transform(X, sample_weight=w)
+            exp = StandardScaler().fit(X, sample_weight=w).transform(X)
+        if got.shape != exp.shape or not numpy.allclose(got, exp, rtol=0, atol=1e-12):
+            return dict(**{"class": "fit-transform"}, what="fit_transform(%s, sample_weight=w) differs from fit(...).transform" % ("X, y" if c["supervised"] else "X"))
         return None
     if c["kind"] == "stacking-mixed":
         # members whose outputs have different dtypes (integer class labels, real-valued predictions): the concatenation keeps every value
